@@ -250,6 +250,13 @@ impl Handle {
             Handle::Tls(p, _) => p.shutdown(),
         }
     }
+    pub fn queued_now(&self) -> usize {
+        self.stats().queue_sizes.iter().sum()
+    }
+    /// logical drain of this pool (see `wait_drain`)
+    pub fn wait_drain(&self, n: u64, watchdog: Duration) -> Drain {
+        wait_drain(n, watchdog, &|| self.queued_now())
+    }
     /// everything currently in the result channel, one Vec of canonical lines per result
     /// (all-empty results are dropped: they report nothing)
     pub fn drain_results(&self) -> Vec<Vec<String>> {
@@ -278,6 +285,45 @@ impl Handle {
             }
         }
         out
+    }
+}
+
+#[derive(Clone, Copy, Debug, PartialEq, Eq)]
+pub enum Drain {
+    /// every queued frame reached the `WorkerProcessed` point
+    Complete,
+    /// all queues are empty and nothing has moved for 2 s, yet fewer frames than were queued
+    /// reached `WorkerProcessed`: the pool is idle, the missing frames were lost inside it
+    IdleShort,
+    /// frames are still queued and nothing moves (stalled machine or stuck worker): inconclusive
+    Stalled,
+}
+
+/// Wait for logical drain.  `queued_now` reports the total length of the worker queues.
+pub fn wait_drain(n: u64, watchdog: Duration, queued_now: &dyn Fn() -> usize) -> Drain {
+    let start = Instant::now();
+    let mut last = log().processed.load(Ordering::SeqCst);
+    let mut last_change = Instant::now();
+    loop {
+        let p = log().processed.load(Ordering::SeqCst);
+        if p >= n {
+            return Drain::Complete;
+        }
+        if p != last {
+            last = p;
+            last_change = Instant::now();
+        }
+        if last_change.elapsed() > Duration::from_secs(2) && queued_now() == 0 {
+            // re-check once more after the queue observation to avoid a race with a last frame
+            std::thread::sleep(Duration::from_millis(50));
+            if log().processed.load(Ordering::SeqCst) == last && queued_now() == 0 {
+                return Drain::IdleShort;
+            }
+        }
+        if start.elapsed() > watchdog {
+            return Drain::Stalled;
+        }
+        std::thread::sleep(Duration::from_micros(200));
     }
 }
 
